@@ -2,9 +2,9 @@
 import sympy
 
 from tsg.facts import DB, strip, txt, callee, call_args, call_object, walk, const_val, short, callee_node
-from tsg.flow import var_of
+from tsg.flow import var_of, cond_edges_dominating
 from tsg.peval import PEval
-from tsg.sym import NotClosedForm, index_form
+from tsg.sym import NotClosedForm, index_form, to_sympy
 from tsg.build import AnalysisBroken
 
 RL = "TasGrid::RuleLocal::"
@@ -177,6 +177,86 @@ def run(chk):
             chk.ob("C05-D4.layout", f.key, "gradient accumulation @%d %s" % (n.get("l", 0), txt(lhs)), bool(ok), f.loc(n),
                    "index form %s, derivative index %s, coefficient index %s" % (form, dvar[:1], svar[:1]), "y[output * num_dimensions + dim]")
     chk.floor("C05-D4.layout", nlay, 2, "gradient accumulation sites in the tree walk")
+    # ------------------------------------------------------------------ D7 the chain rule is consulted for every transform that moves the point
+    chk.rule("C05-D7.guard", "formCanonicalPoints() moves x whenever a linear domain transform or a conformal map is set; wherever its result feeds a derivative routine, "
+                             "diffCanonicalTransform() is consulted under a condition that tests every member formCanonicalPoints() tests (it throws for the maps it cannot differentiate)")
+    TSGC = "TasGrid::TasmanianSparseGrid"
+
+    def tested_members(cond):
+        return {short(q["field"]) for q in walk(cond) if q.get("k") == "MemberExpr" and q.get("field") and not q.get("fn")}
+    fcp = [f for f in db.fns(TSGC + "::formCanonicalPoints")]
+    moved = set()
+    for f in fcp:
+        for q in f.walk():
+            if q.get("k") == "IfStmt" and any((callee(c) or "").endswith(("mapConformalTransformedToCanonical", "mapTransformedToCanonical")) for c in walk(q.get("then"))):
+                moved |= tested_members(q.get("cond"))
+    if not moved:
+        raise AnalysisBroken("formCanonicalPoints no longer tests which transforms are set: re-derive C05-D7")
+    ng = 0
+    for f in db.all_functions(["SparseGrids/TasmanianSparseGrid.cpp"]):
+        if f.cls != TSGC or short(f.name) not in ("differentiate", "getDifferentiationWeights"):
+            continue
+        if not any((callee(c) or "").endswith("::formCanonicalPoints") for c in f.calls()):
+            continue
+        dct = [c for c in f.calls() if (callee(c) or "").endswith("::diffCanonicalTransform")]
+        ng += 1
+        chk.saw(f)
+        if not dct:
+            chk.ob("C05-D7.guard", f.key + f.sig, "chain rule consulted", False, f.where, "the canonical derivative is returned without the Jacobian of the transform")
+            continue
+        tested = set()
+        for e, tr in cond_edges_dominating(f, dct[0]):
+            tested |= tested_members(e)
+        for a in f.ancestors(dct[0]):
+            if a.get("k") == "IfStmt":
+                tested |= tested_members(a.get("cond"))
+        miss = moved - tested
+        chk.ob("C05-D7.guard", f.key + f.sig, "diffCanonicalTransform consulted for every transform that moves x", not miss, f.loc(dct[0]),
+               "the guard does not test %s: with only that transform set the derivative of the canonical surrogate is returned unscaled" % sorted(miss) if miss else "tests %s" % sorted(tested & moved))
+    chk.floor("C05-D7.guard", ng, 2, "API routines that differentiate through formCanonicalPoints")
+
+    # ------------------------------------------------------------------ D6 extent of the zero fill
+    chk.rule("C05-D6.fill", "a getDifferentiationWeights implementation that clears its output before writing the active entries clears all num_points x num_dimensions of them "
+                            "(the caller's buffer is only resized by the API layer, entries of inactive points would keep stale numbers)")
+    nfill = 0
+    N, D = sympy.Symbol("N", positive=True), sympy.Symbol("D", positive=True)
+    for f in [g for fs_ in db.load_all().values() for g in fs_ if short(g.name) == "getDifferentiationWeights" and (g.cls or "").startswith("TasGrid::Grid")]:
+        wp = next((p_ for p_ in f.params() if p_["name"] == "weights" or p_["t"].replace(" ", "") == "double*"), None)
+        if wp is None:
+            continue
+        loc = {v["did"]: v for v in f.locals().values() if "did" in v}
+
+        def res(n, loc=loc):
+            k = n.get("k")
+            if k == "MemberExpr" and short(n.get("field") or "") == "num_dimensions":
+                return D
+            if k in ("CXXMemberCallExpr",) and (callee(n) or "").endswith("::getNumIndexes"):
+                return N        # size of the work set (loaded points, or needed points when nothing is loaded)
+            if k == "CallExpr" and (callee(n) or "").endswith("Utils::size_mult"):
+                a = call_args(n)
+                return to_sympy(a[0], res) * to_sympy(a[1], res)
+            if k == "DeclRefExpr" and n.get("did") in loc and loc[n["did"]].get("t") in ("int", "size_t"):
+                ini = [c for c in loc[n["did"]].get("c", []) if isinstance(c, dict)]
+                if ini:
+                    return to_sympy(ini[0], res)
+            if k == "ConditionalOperator":
+                a, b = to_sympy(n["c"][1], res), to_sympy(n["c"][2], res)
+                if sympy.simplify(a - b) == 0:
+                    return a
+            return None
+        for c in f.calls():
+            if (callee(c) or "") in ("std::fill_n", "std::fill") and var_of(call_args(c)[0]) == wp["did"]:
+                nfill += 1
+                chk.saw(f)
+                try:
+                    e = to_sympy(call_args(c)[1], res)
+                    ok = sympy.simplify(e - N * D) == 0
+                    detail = "clears %s entries" % e
+                except NotClosedForm as ex:
+                    ok, detail = False, "extent not a closed form: %s" % ex
+                chk.ob("C05-D6.fill", f.key, "zero fill of the weights", ok, f.loc(c), detail, "N * D (points x dimensions)")
+    chk.floor("C05-D6.fill", nfill, 4, "zero fills in getDifferentiationWeights implementations")
+
     # ------------------------------------------------------------------ D5 product rule across dimensions
     chk.rule("C05-D5.product", "the per-basis gradient is assembled by the product rule: for num_dimensions = 1..4 the loop nest is folded with the one-dimensional values / derivatives as symbols "
                                "(tagged with the indexes that address them) and component j must equal D_j * prod_{k != j} V_k")
